@@ -202,13 +202,23 @@ func main() {
 		output.Harnesses = append(output.Harnesses, r)
 		if *verbose >= 1 {
 			fmt.Fprintf(os.Stderr, "%-40s %-12s paths=%d steps=%d q=%v solver=%.1fs wall=%.1fs\n", r.Name, r.Status, r.Paths, r.Steps, r.Queries, r.SolverS, r.WallS)
+			seenL := map[string]int{}
 			for _, a := range r.Asserts {
 				if a.Result != "proved" {
-					fmt.Fprintf(os.Stderr, "    %s %s [%s] %s\n", a.Result, a.Label, a.Kind, trunc(a.Msg, 300))
+					seenL[a.Result+a.Label]++
+					if seenL[a.Result+a.Label] > 1 {
+						continue
+					}
+					fmt.Fprintf(os.Stderr, "    %s %s [%s] %s\n", a.Result, a.Label, a.Kind, trunc(a.Msg, 200))
 					if a.Cex != nil && *verbose >= 2 {
 						b, _ := json.Marshal(a.Cex)
-						fmt.Fprintf(os.Stderr, "      cex: %s\n", trunc(string(b), 600))
+						fmt.Fprintf(os.Stderr, "      cex: %s\n", trunc(string(b), 200))
 					}
+				}
+			}
+			for k, n := range seenL {
+				if n > 1 {
+					fmt.Fprintf(os.Stderr, "    (%s: %d paths)\n", k, n)
 				}
 			}
 			for i, a := range r.Aborts {
